@@ -4,12 +4,15 @@ import (
 	"context"
 	"encoding/json"
 	"fmt"
+	"os"
+	"path/filepath"
 	"strings"
 	"testing"
 	"time"
 
 	"github.com/Comcast/sheens/core"
 	"github.com/Comcast/sheens/match"
+	"github.com/Comcast/sheens/sio"
 	"github.com/jsccast/yaml"
 	"pgregory.net/rapid"
 	"verif/lib/ev"
@@ -535,4 +538,86 @@ func TestC07Total(t *testing.T) {
 
 func FuzzC07Total(f *testing.F) {
 	ev.Fuzz(f, ev.Opts{Property: "C07", Name: "total", Journal: true}, genTotal, checkTotal)
+}
+
+// ---- the hosts' document loaders are total, too
+
+type LoaderCase struct {
+	Kind string      `json:"kind"` // json, yaml, empty, missing, garbage, directory, inline
+	Doc  interface{} `json:"doc,omitempty"`
+	Text string      `json:"text,omitempty"`
+}
+
+func genLoader(t *rapid.T) LoaderCase {
+	c := LoaderCase{Kind: rapid.SampledFrom([]string{"json", "yaml", "empty", "missing", "garbage", "directory", "inline", "json", "yaml"}).Draw(t, "kind")}
+	switch c.Kind {
+	case "json", "yaml", "inline":
+		a := sm.GenSpec(t, sm.SpecOpts{Fail: 2, Emit: true})
+		js, _ := json.Marshal(a.Build())
+		var doc map[string]interface{}
+		json.Unmarshal(js, &doc)
+		for i := rapid.IntRange(0, 2).Draw(t, "nmut"); i > 0; i-- {
+			applyMut(doc, Mut{Kind: rapid.SampledFrom(mutKinds).Draw(t, fmt.Sprintf("mk%d", i)),
+				Node: rapid.SampledFrom(a.NodeNames()).Draw(t, fmt.Sprintf("mn%d", i)), I: rapid.IntRange(0, 2).Draw(t, fmt.Sprintf("mi%d", i))}, false)
+		}
+		c.Doc = doc
+	case "garbage":
+		c.Text = rapid.SampledFrom([]string{"{", "}", "[1,2", "nodes: [", "\x00\x01", "{\"nodes\": 7}", "- a\n- b\n", "? x", "\t\t", "null", "42", "\"str\""}).Draw(t, "text")
+	}
+	return c
+}
+
+func checkLoader(c LoaderCase) (v ev.Verdict) {
+	dir, err := os.MkdirTemp(os.Getenv("VERIF_WORK"), "c07load")
+	if err != nil {
+		v.Failf("tempdir: %v", err)
+		return
+	}
+	defer os.RemoveAll(dir)
+	var src interface{}
+	path := filepath.Join(dir, "spec")
+	switch c.Kind {
+	case "json":
+		js, _ := json.Marshal(c.Doc)
+		os.WriteFile(path, js, 0644)
+	case "yaml":
+		ys, yerr := yaml.Marshal(c.Doc)
+		if yerr != nil {
+			v.Skip, v.SkipReason = true, "yaml-render"
+			return
+		}
+		os.WriteFile(path, ys, 0644)
+	case "empty":
+		os.WriteFile(path, nil, 0644)
+	case "garbage":
+		os.WriteFile(path, []byte(c.Text), 0644)
+	case "directory":
+		os.Mkdir(path, 0755)
+	case "missing":
+	}
+	if c.Kind == "inline" {
+		src = map[string]interface{}{"inline": c.Doc}
+	} else {
+		src = map[string]interface{}{"url": "file://" + path}
+	}
+	var spec *core.Spec
+	var rerr error
+	if p := trap(func() { _, spec, rerr = sio.ResolveSpecSource(context.Background(), src) }); p != "" {
+		v.Failf("sio.ResolveSpecSource panicked on a %s spec source: %s", c.Kind, p)
+		return
+	}
+	v.Class("kind:" + c.Kind)
+	if rerr != nil {
+		v.Class("error")
+	} else if spec != nil {
+		v.Class("spec")
+	}
+	v.NonTrivial = true
+	return
+}
+
+func TestC07Loaders(t *testing.T) {
+	ev.Run(t, ev.Opts{Property: "C07", Name: "loaders", Quick: 1500, Thorough: 60000,
+		Rule: "the sio host's spec loader (ResolveSpecSource: inline, file URL) on mutated JSON/YAML documents, empty, missing, garbage files and directories: a specification or an error, never a crash; every case is non-trivial"},
+		genLoader, checkLoader)
 }
